@@ -179,7 +179,7 @@ func run(r *ev.Run) {
 	// ---- fixed case list
 	var storeJobs, indexJobs []jobSpec
 	ps := plans()
-	perWeight := r.Pick(2, 80)
+	perWeight := r.Pick(3, 80)
 	for pi, p := range ps {
 		n := p.weight * perWeight
 		label := compactSpec(p.spec)
@@ -213,11 +213,11 @@ func run(r *ev.Run) {
 		}
 	}
 	irng := r.Rand("index")
-	kvs := []string{"memory"}
+	kvs := []string{"memory", "memory", "leveldb", "memory"}
 	if r.Thorough() {
 		kvs = []string{"memory", "memory", "leveldb", "kv", "memory", "sqlite"}
 	}
-	for h := 0; h < r.Pick(8, 240); h++ {
+	for h := 0; h < r.Pick(12, 240); h++ {
 		indexJobs = append(indexJobs, jobSpec{
 			ID: fmt.Sprintf("i%d;", h), Kind: "index", Label: "index+corpus", Seed: irng.Int63n(1 << 40),
 			Permanodes: 3, Claims: 8, Victims: 3, Readers: []int{2, 4, 6, 8, 12}[h%5], Reads: 40 + irng.Intn(41), KV: kvs[h%len(kvs)],
